@@ -1066,6 +1066,10 @@ class AirTouch5(pyairtouch.api.AirTouch):
                 zone_status_msg.ZoneStatusMessage(zone_statuses)
             ) if self._state == _AirTouchState.INIT_ZONE_STATUS:
                 await self._process_zone_status_message(zone_statuses)
+                if self._state != _AirTouchState.INIT_ZONE_STATUS:
+                    # shutdown() was called while the subscribers were being
+                    # notified, so initialisation must not be completed.
+                    return
                 # Move to the next state
                 self._state = _AirTouchState.CONNECTED
                 await self._heartbeat_manager.start()
